@@ -137,6 +137,8 @@ TTwDrain == IsEv("mux.tw.drain")
                \/ Confirm(<<"mux.tw.drain", E.obj, E.b>>)
 
 \* ---- observed data path: the token written on dial d's connection was read on accept a's
+\* the greeting the acceptor wrote right after Accept returned reached the dialer complete (bytes written on one end arrive at the peer)
+TGreet == IsEv("greet") /\ E.dial \in Dials /\ E.intact /\ Same /\ Keep
 TXfer == IsEv("xfer") /\ E.acc \in Accepts /\ E.dial \in Dials /\ aconn[E.acc] = E.dial /\ E.intact /\ Same /\ Keep
 
 TNextId == IsEv("nextid") /\ NextId(E.obj) /\ nid'[E.obj] = E.a /\ Keep
@@ -201,7 +203,7 @@ TraceNext ==
      /\ \/ TSkip \/ TSessionDown \/ TRunExit \/ TDialWroteFail \/ TAcceptAckFail \/ TCallDial \/ TAbortOpen \/ TAbortClosed \/ TRunIdFail \/ TDialOpened \/ TDialWrote \/ TDialAck \/ TRetDial \/ TGetStream
         \/ TAcceptSlot \/ TAcceptTook \/ TAcceptClosed \/ TAcceptAck \/ TAcceptTimeout \/ TAcceptDeleted
         \/ TRetAccept \/ TRel \/ TRunStream \/ TRunId \/ TRunSlot \/ TRunPark
-        \/ TTwWoke \/ TTwDrain \/ TXfer \/ TNextId
+        \/ TTwWoke \/ TTwDrain \/ TXfer \/ TGreet \/ TNextId
   \/ SilentSpawn
   \/ Ahead
 
